@@ -6,6 +6,7 @@
 import SqlDt.Model.Serde
 import SqlDt.Spec.Munch
 import SqlDt.Spec.Units
+import SqlDt.Spec.Values
 open SqlDt
 
 namespace Drv
@@ -238,6 +239,15 @@ def specHandler (name : String) : Option (List Arg → Res) :=
         if rest ≠ 0 then .badArg
         else if ¬ validUtf8 buf then .skipUtf8
         else (match Spec.munch buf with | .ok fs => .ok [.str (fieldsStr fs)] | .error e => .err e)
+    | _ => .badOp
+  | "F.format" => some fun
+    | [ty, n, p, .int cap] => withTy ty fun ty => recv ty n fun n => text p fun p =>
+        if cap ≥ 0 then .badOp else
+        (match Spec.formatSpec ty n p with | .ok t => .ok [.bytes t] | .error e => .err e)
+    | _ => .badOp
+  | "F.display" => some fun
+    | [ty, n, p] => withTy ty fun ty => recv ty n fun n => text p fun p =>
+        (match Spec.formatSpec ty n p with | .ok t => .ok [.bytes t] | .error e => .err e)
     | _ => .badOp
   | "D.trunc" => some fun | [u, n] => withUnit u (fun u => recv .D n fun n => chkInt (Spec.truncDate u n)) | _ => .badOp
   | "D.round" => some fun | [u, n] => withUnit u (fun u => recv .D n fun n => chkInt (Spec.roundDate u n)) | _ => .badOp
